@@ -1055,7 +1055,7 @@ def gen_cases(rng, tier):
                 cases.append(c)
     # a fraction of the polymath operands is REACHED THROUGH A HISTORY (harness/hist.py); the reference is still
     # computed from the description (seeded change C04-D: x + number keeping the cached wod of x)
-    HM = ['derived', 'derived', 'derived', 'derived', 'setitem', 'iadd', 'isub', 'imul', 'itruediv', 'iand', 'ior']
+    HM = ['derived', 'derived', 'derived', 'derived', 'sibling', 'sibling', 'setitem', 'iadd', 'isub', 'imul', 'itruediv', 'iand', 'ior']
     for c in cases:
         for k in ('a', 'b'):
             if k in c and c[k].get('form') == 'qube' and 'hist' not in c[k] and rng.random() < 0.3:
